@@ -60,6 +60,27 @@ theorem c09_no_hang_without_a_binary_body (o : Opts) (ops : List Op) (h : ∀ op
       · intro op' hm; exact hall op' (List.mem_cons_of_mem _ hm)
   exact this (init o) rfl h
 
+/-- a binary data request on a revision-4 session is refused before anything is decoded: it cannot hang the model either -/
+theorem c09_binary_body_on_v4_is_refused_undecoded (w : World) (sid : Nat) (declared : Bool) (body : Bytes) (vj : Bool)
+    (h4 : (w.tr (w.sock sid).tr).proto = 4) :
+    (postReq w sid true declared body vj).fault = w.fault := by
+  unfold postReq lookup
+  try dsimp only
+  have c0 : NF w ({ w with reqs := w.reqs.push { isPost := true, consumed := some 0 } } : World) := nf_pushReq _ (NF.refl w)
+  split
+  · exact (nf_rejectReq _ _ _ c0).fault
+  · rename_i s hl
+    have hs : s = w.sock sid := by
+      split at hl
+      · cases hl; rfl
+      · cases hl
+    subst hs
+    split
+    · exact (nf_rejectReq _ _ _ c0).fault
+    · have hp : (({ w with reqs := w.reqs.push { isPost := true, consumed := some 0 } } : World).tr (w.sock sid).tr).proto = 4 := h4
+      simp only [hp, and_self, if_true]
+      exact (nf_answer _ _ (nf_trOnError _ c0)).fault
+
 /-- the finding itself, on the model: the 14-byte revision-3 binary body with a 12-digit length prefix -/
 example :
     (run { eio3 := true } [.hsPolling 3 false none, .settle,
